@@ -745,6 +745,34 @@ theorem family_object_unique (c : Calc) (vs vf : GocVariant)
   refine ⟨Option.some.inj l2, ?_⟩
   simp only [gRegistered, r1, l1]
 
+/-- The converse, for the code's shape (both get-or-creates one critical section): writers of
+DIFFERENT families never share a family object — together with `family_object_unique` the live
+family objects correspond one to one to the families written. -/
+theorem family_object_distinct (c : Calc) (ts : List Int) (sched : List Nat) :
+    ∀ t1 ∈ (gRun .atomic .atomic (gInit c ts) sched).threads,
+    ∀ t2 ∈ (gRun .atomic .atomic (gInit c ts) sched).threads,
+      calcFamilyTime c t1.ts ≠ calcFamilyTime c t2.ts →
+      ∀ a b, t1.famObj = some a → t2.famObj = some b → a ≠ b := by
+  have sa : Lemmas.C13.GocSafe .atomic := Or.inl rfl
+  obtain ⟨inv, _⟩ := Lemmas.C13.gRun_inv sa sa c sched (gInit c ts) (Lemmas.C13.gInit_inv c ts)
+  obtain ⟨fresh, _⟩ := Lemmas.C13.gRun_fresh sched (gInit c ts) (Lemmas.C13.gInit_fresh c ts)
+  intro t1 m1 t2 m2 hne a b ha hb hab
+  obtain ⟨ok1, s1, f1⟩ := inv t1 m1
+  obtain ⟨ok2, s2, f2⟩ := inv t2 m2
+  obtain ⟨so1, e1, l1⟩ := ok1.2 a ha
+  obtain ⟨so2, e2, l2⟩ := ok2.2 b hb
+  subst hab
+  have k := fresh.2 _ _ _ l1 l2
+  have kso : so1 = so2 := by have := congrArg Prod.fst k; simpa using this
+  have kfam : t1.fam = t2.fam := congrArg Prod.snd k
+  subst kso
+  have kseg : t1.seg = t2.seg := by
+    have := fresh.2 _ _ _ (ok1.1 so1 e1) (ok2.1 so1 e2)
+    exact congrArg Prod.snd this
+  apply hne
+  simp only [calcFamilyTime]
+  rw [← s1, ← s2, ← f1, ← f2, kseg, kfam]
+
 /-- the families of two writers of one timestamp list are those of the list: the writer threads of
 `ts` request exactly `(CalcSegmentTime t, CalcFamily t)` — the keys are the C13 arithmetic -/
 theorem writer_keys (c : Calc) (ts : List Int) :
